@@ -252,8 +252,14 @@ func cmdRx(args []string) int {
 			st.hist("tag:" + t)
 		}
 		hg := newHayGen(r.fork(uint64(i)+1000), c.re)
-		for j := 0; j < *nhay; j++ {
-			h := hg.next(j)
+		extra := hg.perLiteral()
+		for j := 0; j < *nhay+len(extra); j++ {
+			var h []byte
+			if j < *nhay {
+				h = hg.next(j)
+			} else {
+				h = extra[j-*nhay]
+			}
 			st.Evaluations++
 			key := pat + "\x00" + string(h)
 			if _, dup := rr.distinct[key]; dup {
